@@ -72,38 +72,61 @@ func discharge(u *Universe, o *Obligation, dir string, timeoutS int, confirm boo
 	fname := filepath.Join(dir, sanitizeFile(o.Name)+fmt.Sprintf("__p%d_%x.smt2", o.Path, fnv(script)))
 	os.WriteFile(fname, []byte("; obligation "+o.Name+"\n; source "+o.Src+"\n"+script), 0o644)
 	o.File = fname
-	// second encoding: nonlinear arithmetic abstracted (only if there is any)
-	absName := ""
-	if !o.Cover && (strings.Contains(script, "(* ") || strings.Contains(script, "(/ ")) {
-		as := u.ScriptAbstract(o.Assumptions, o.Goal)
-		if strings.Contains(as, "u_mul_") || strings.Contains(as, "u_div_") {
-			absName = strings.TrimSuffix(fname, ".smt2") + ".abs.smt2"
-			os.WriteFile(absName, []byte("; obligation "+o.Name+" (nonlinear arithmetic abstracted: only unsat is meaningful)\n"+as), 0o644)
-		}
-	}
 	start := time.Now()
 	definite := func(r solveResult) bool { return r.result == "unsat" || r.result == "sat" }
+	// further encodings of the same obligation (each is a weakening, so only "unsat" is meaningful):
+	//   .abs   nonlinear arithmetic abstracted to uninterpreted functions
+	//   .usi   slice index function sidx kept uninterpreted (injective) instead of defined as off+i
+	type variant struct{ file, tag string }
+	var variants []variant
+	hasNL := strings.Contains(script, "(* ") || strings.Contains(script, "(/ ")
+	hasSidx := strings.Contains(script, "(sidx ")
+	if !o.Cover {
+		add := func(abs, usi bool, tag string) {
+			txt := u.ScriptVariant(o.Assumptions, o.Goal, abs, usi)
+			if abs && !strings.Contains(txt, "u_mul_") && !strings.Contains(txt, "u_div_") {
+				return
+			}
+			name := strings.TrimSuffix(fname, ".smt2") + "." + tag + ".smt2"
+			os.WriteFile(name, []byte("; obligation "+o.Name+" (weakened encoding "+tag+": only unsat is meaningful)\n"+txt), 0o644)
+			variants = append(variants, variant{name, tag})
+		}
+		if hasNL {
+			add(true, false, "abs")
+		}
+		if hasSidx {
+			add(false, true, "usi")
+		}
+		if hasNL && hasSidx {
+			add(true, true, "abs-usi")
+		}
+	}
 	var r solveResult
 	if o.Cover {
 		// vacuity guard: only "unsat" (contradictory assumptions) matters; a short budget is enough
 		r = runSolver(context.Background(), solvers[0], fname, 2)
 	} else {
 		ctx, cancel := context.WithCancel(context.Background())
-		ch := make(chan solveResult, 2*len(solvers))
+		ch := make(chan solveResult, 16)
 		n := 0
 		for _, s := range solvers {
 			n++
 			go func(s solverSpec) { ch <- runSolver(ctx, s, fname, timeoutS) }(s)
-			if absName != "" {
+		}
+		for _, v := range variants {
+			for si, s := range solvers {
+				if si == 1 {
+					continue // the old z3 only runs the exact encoding
+				}
 				n++
-				go func(s solverSpec) {
-					r := runSolver(ctx, s, absName, timeoutS)
-					r.solver += "(nl-abstracted)"
+				go func(s solverSpec, v variant) {
+					r := runSolver(ctx, s, v.file, timeoutS)
+					r.solver += "(" + v.tag + ")"
 					if r.result == "sat" {
-						r.result = "unknown" // a model of the abstraction is not a counterexample
+						r.result = "unknown" // a model of a weakening is not a counterexample
 					}
 					ch <- r
-				}(s)
+				}(s, v)
 			}
 		}
 		var last solveResult
